@@ -867,8 +867,11 @@ where
 
         if let Some(max) = self.max_capacity {
             if new_weight as u64 > max {
-                // The candidate is too big to fit in the cache. Reject it.
-                self.cache.remove(&Arc::clone(&kh.key));
+                // The candidate is too big to fit in the cache. Reject it. Remove it
+                // from the hash map only if the map still holds this very entry; the
+                // key may have been updated since this write op was queued.
+                self.cache
+                    .remove_if(&kh.key, |_, v| TrioArc::ptr_eq(v, &entry));
                 return;
             }
         }
@@ -904,8 +907,10 @@ where
             }
             AdmissionResult::Rejected { skipped_nodes: s } => {
                 skipped_nodes = s;
-                // Remove the candidate from the cache (hash map).
-                self.cache.remove(&Arc::clone(&kh.key));
+                // Remove the candidate from the cache (hash map), but only if the
+                // map still holds this very entry (see above).
+                self.cache
+                    .remove_if(&kh.key, |_, v| TrioArc::ptr_eq(v, &entry));
             }
         };
 
